@@ -624,4 +624,289 @@ theorem scan_run (ops : List Op) {sc : Scan} {s : State} (r : Rel sc s) :
     exact ih (rel_step r op)
 
 
+/-! ### no orphan buckets: every bucket's organization exists -/
+
+def OrphanFree (s : State) : Prop := ∀ id b, get s.bkts id = some b → has s.orgs b.org = true
+
+theorem has_put {κ ν : Type} [DecidableEq κ] (m : List (κ × ν)) (k k' : κ) (v : ν) :
+    has (put m k v) k' = (decide (k = k') || has m k') := by
+  simp only [has_eq, get_put]
+  by_cases h : k = k' <;> simp [h]
+
+theorem has_del_ne {κ ν : Type} [DecidableEq κ] (m : List (κ × ν)) {k k' : κ} (h : k ≠ k') :
+    has (del m k) k' = has m k' := by
+  simp only [has_eq, get_del_ne m h]
+
+/-- a step that keeps every organization and adds/changes buckets only inside existing organizations -/
+theorem orphanFree_of {s s' : State} (h : OrphanFree s)
+    (horgs : ∀ o, has s.orgs o = true → has s'.orgs o = true)
+    (hb : ∀ id b, get s'.bkts id = some b → get s.bkts id = some b ∨ has s'.orgs b.org = true) : OrphanFree s' := by
+  intro id b hg
+  rcases hb id b hg with h1 | h1
+  · exact horgs _ (h id b h1)
+  · exact h1
+
+theorem createOrgStore_orgs_grow (s : State) (name : String) (o : Nat) (h : has s.orgs o = true) :
+    has (createOrgStore s name).1.orgs o = true := by
+  unfold createOrgStore
+  generalize genSafe (has s.orgs) maxIDGenerationN s.nextOrg = g
+  obtain ⟨r, n'⟩ := g
+  cases r with
+  | error e => exact h
+  | ok id =>
+    simp only
+    repeat' split
+    all_goals first
+      | exact h
+      | (simp only [has_put, h, Bool.or_true])
+
+theorem createBucketStore_orgs (s : State) (org : Nat) (name : String) (sys : Bool) :
+    (createBucketStore s org name sys).1.orgs = s.orgs := by
+  unfold createBucketStore
+  generalize genSafe (has s.bkts) maxIDGenerationN s.nextBkt = g
+  obtain ⟨r, n'⟩ := g
+  cases r with
+  | error e => rfl
+  | ok id => simp only; split <;> rfl
+
+theorem createBucket_orgs (s : State) (org : Nat) (name : String) (sys : Bool) :
+    (createBucket s org name sys).1.orgs = s.orgs := by
+  unfold createBucket
+  repeat' split
+  all_goals first
+    | rfl
+    | exact createBucketStore_orgs s org name sys
+
+/-- a bucket record after `CreateBucket` is an old one or lies in an existing organization -/
+theorem createBucket_new (s : State) (org : Nat) (name : String) (sys : Bool) (id : Nat) (b : BucketRec)
+    (h : get (createBucket s org name sys).1.bkts id = some b) :
+    get s.bkts id = some b ∨ has s.orgs b.org = true := by
+  unfold createBucket at h
+  split at h
+  · exact Or.inl h
+  · split at h
+    · exact Or.inl h
+    · split at h
+      · exact Or.inl h
+      · rename_i horg
+        unfold createBucketStore at h
+        generalize genSafe (has s.bkts) maxIDGenerationN s.nextBkt = g at h
+        obtain ⟨r, n'⟩ := g
+        cases r with
+        | error e => exact Or.inl h
+        | ok id' =>
+          simp only at h
+          split at h
+          · exact Or.inl h
+          · simp only [get_put] at h
+            split at h
+            · simp only [Option.some.injEq] at h; subst h; right; simpa using horg
+            · exact Or.inl h
+
+theorem createBucket_orphanFree {s : State} (h : OrphanFree s) (org : Nat) (name : String) (sys : Bool) :
+    OrphanFree (createBucket s org name sys).1 :=
+  orphanFree_of h (fun o ho => by rw [createBucket_orgs]; exact ho)
+    (fun id b hg => by
+      rcases createBucket_new s org name sys id b hg with h1 | h1
+      · exact Or.inl h1
+      · right; rw [createBucket_orgs]; exact h1)
+
+theorem createOrgStore_orphanFree {s : State} (h : OrphanFree s) (name : String) :
+    OrphanFree (createOrgStore s name).1 :=
+  orphanFree_of h (createOrgStore_orgs_grow s name) (fun id b hg => by
+    rw [createOrgStore_bkts] at hg; exact Or.inl hg)
+
+theorem createURM_orgs (s : State) (res user : Nat) (r : UrmRec) : (createURM s res user r).1.orgs = s.orgs := by
+  unfold createURM
+  (repeat' split) <;> rfl
+
+theorem createOrganization_orphanFree {s : State} (h : OrphanFree s) (name : String) (u : Nat) :
+    OrphanFree (createOrganization s name u).1 := by
+  unfold createOrganization
+  have h1 := createOrgStore_orphanFree h name
+  split
+  · rename_i s1 e he; rw [he] at h1; exact h1
+  · rename_i s1 id he; rw [he] at h1
+    have h2 := createBucket_orphanFree h1 id "_tasks" true
+    split
+    · rename_i s2 e he2; rw [he2] at h2; exact h2
+    · rename_i s2 x he2; rw [he2] at h2
+      have h3 := createBucket_orphanFree h2 id "_monitoring" true
+      split
+      · rename_i s3 e he3; rw [he3] at h3; exact h3
+      · rename_i s3 y he3; rw [he3] at h3
+        split
+        · exact h3
+        · have h4 : OrphanFree (createURM s3 id u ⟨true, true⟩).1 := by
+            intro i b hg
+            rw [createURM_bkts] at hg; rw [createURM_orgs]; exact h3 i b hg
+          split
+          · rename_i s4 e he4; rw [he4] at h4; exact h4
+          · rename_i s4 z he4; rw [he4] at h4; exact h4
+
+theorem updateOrganization_orphanFree {s : State} (h : OrphanFree s) (id : Nat) (name : Option String) :
+    OrphanFree (updateOrganization s id name).1 := by
+  refine orphanFree_of h ?_ (fun i b hg => by rw [updateOrganization_bkts] at hg; exact Or.inl hg)
+  intro o ho
+  unfold updateOrganization
+  repeat' split
+  all_goals first
+    | exact ho
+    | (simp only [has_put, ho, Bool.or_true])
+
+theorem updateBucket_orgs (s : State) (id : Nat) (name : Option String) : (updateBucket s id name).1.orgs = s.orgs := by
+  unfold updateBucket
+  (repeat' split) <;> rfl
+
+theorem updateBucket_orphanFree {s : State} (h : OrphanFree s) (id : Nat) (name : Option String) :
+    OrphanFree (updateBucket s id name).1 := by
+  refine orphanFree_of h (fun o ho => by rw [updateBucket_orgs]; exact ho) ?_
+  intro i b hg
+  unfold updateBucket at hg
+  repeat' split at hg
+  all_goals first
+    | exact Or.inl hg
+    | skip
+  rename_i b0 hb0 _ n _ _ _ _
+  simp only [get_put] at hg
+  split at hg
+  · simp only [Option.some.injEq] at hg; subst hg
+    right; rw [updateBucket_orgs]; exact h _ b0 hb0
+  · exact Or.inl hg
+
+theorem removeResourceRelations_orgs (s : State) (r : Nat) : (removeResourceRelations s r).orgs = s.orgs :=
+  (foldl_deleteURMRaw_same _ s).1
+
+theorem deleteBucket_orgs (s : State) (x : Nat) (internal : Bool) : (deleteBucket s x internal).1.orgs = s.orgs := by
+  unfold deleteBucket
+  repeat' split
+  all_goals first
+    | rfl
+    | skip
+  simp only [removeResourceRelations_orgs]
+
+theorem deleteBucket_orphanFree {s : State} (h : OrphanFree s) (x : Nat) (internal : Bool) :
+    OrphanFree (deleteBucket s x internal).1 :=
+  orphanFree_of h (fun o ho => by rw [deleteBucket_orgs]; exact ho)
+    (fun i b hg => Or.inl (deleteBucket_bkts_mono s x internal hg))
+
+theorem deleteBuckets_orgs (l : List Nat) (s : State) : (deleteBuckets s l).1.orgs = s.orgs := by
+  induction l generalizing s with
+  | nil => rfl
+  | cons x l ih =>
+    unfold deleteBuckets
+    have h1 := deleteBucket_orgs s x true
+    split
+    · rename_i s1 e he; rw [he] at h1; exact h1
+    · rename_i s1 u he; rw [he] at h1; rw [ih s1]; exact h1
+
+theorem deleteOrgStore_orgs_err {s s' : State} {org : Nat} {e : Err} (h : deleteOrgStore s org = (s', .error e)) :
+    s'.orgs = s.orgs ∧ s'.bkts = s.bkts := by
+  unfold deleteOrgStore at h
+  split at h
+  · simp only [Prod.mk.injEq] at h; obtain ⟨rfl, _⟩ := h; exact ⟨rfl, rfl⟩
+  · simp at h
+
+theorem deleteOrgStore_orgs_ok {s s' : State} {org : Nat} {u : Unit} (h : deleteOrgStore s org = (s', .ok u)) :
+    s'.orgs = del s.orgs org ∧ s'.bkts = s.bkts := by
+  unfold deleteOrgStore at h
+  split at h
+  · simp at h
+  · simp only [Prod.mk.injEq] at h; obtain ⟨rfl, _⟩ := h; exact ⟨rfl, rfl⟩
+
+/-- what `DeleteOrganization` does to organizations and buckets: it fails and keeps every organization,
+    or succeeds and removes exactly the organization; buckets only disappear -/
+theorem deleteOrganization_shape (s : State) (org : Nat) :
+    (∀ id b, get (deleteOrganization s org).1.bkts id = some b → get s.bkts id = some b) ∧
+    (((deleteOrganization s org).1.orgs = s.orgs ∧ ∃ e, (deleteOrganization s org).2 = .error e) ∨
+     ((deleteOrganization s org).1.orgs = del s.orgs org ∧ (deleteOrganization s org).2 = .ok org)) := by
+  unfold deleteOrganization
+  split
+  · exact ⟨fun _ _ h => h, Or.inl ⟨rfl, _, rfl⟩⟩
+  · simp only
+    split
+    · exact ⟨fun _ _ h => h, Or.inl ⟨rfl, _, rfl⟩⟩
+    · have hm : ∀ id b, get (deleteBuckets s (bucketIdsOfOrg s org)).1.bkts id = some b → get s.bkts id = some b :=
+        fun id b hg => deleteBuckets_bkts_mono (bucketIdsOfOrg s org) s hg
+      have ho := deleteBuckets_orgs (bucketIdsOfOrg s org) s
+      split
+      · rename_i s1 e he
+        rw [he] at hm ho
+        exact ⟨fun id b hg => hm id b hg, Or.inl ⟨ho, _, rfl⟩⟩
+      · rename_i s1 x he
+        rw [he] at hm ho
+        split
+        · rename_i s2 e he2
+          obtain ⟨eo, eb⟩ := deleteOrgStore_orgs_err he2
+          exact ⟨fun id b hg => hm id b (by rw [← eb]; exact hg), Or.inl ⟨by rw [eo, ho], _, rfl⟩⟩
+        · rename_i s2 y he2
+          obtain ⟨eo, eb⟩ := deleteOrgStore_orgs_ok he2
+          refine ⟨fun id b hg => hm id b (by rw [← eb, ← removeResourceRelations_bkts s2 org]; exact hg), Or.inr ⟨?_, rfl⟩⟩
+          rw [removeResourceRelations_orgs, eo, ho]
+
+theorem deleteOrganization_orphanFree {s : State} (hi : Inv s) (h : OrphanFree s) (org : Nat) :
+    OrphanFree (deleteOrganization s org).1 := by
+  obtain ⟨hmono, hcase⟩ := deleteOrganization_shape s org
+  rcases hcase with ⟨ho, _⟩ | ⟨ho, hr⟩
+  · intro id b hg; rw [ho]; exact h id b (hmono id b hg)
+  · have hfull : deleteOrganization s org = ((deleteOrganization s org).1, .ok org) := by rw [← hr]
+    have hc := (deleteOrganization_cascade hi org hfull).1
+    intro id b hg
+    rw [ho, has_del_ne _ (fun c => hc id b hg c.symm)]
+    exact h id b (hmono id b hg)
+
+theorem deleteURM_orgs (s : State) (res user : Nat) : (deleteURM s res user).1.orgs = s.orgs := by
+  unfold deleteURM
+  (repeat' split) <;> rfl
+
+theorem createUser_orgs (s : State) (name : String) (id : Nat) : (createUser s name id).1.orgs = s.orgs := by
+  unfold createUser
+  split
+  rename_i id' s' hp
+  have : s'.orgs = s.orgs := by
+    split at hp <;> simp only [Prod.mk.injEq] at hp <;> obtain ⟨_, rfl⟩ := hp <;> rfl
+  (repeat' split) <;> exact this
+
+theorem updateUser_orgs (s : State) (id : Nat) (name : Option String) : (updateUser s id name).1.orgs = s.orgs := by
+  unfold updateUser
+  (repeat' split) <;> rfl
+
+theorem deleteUser_orgs (s : State) (id : Nat) : (deleteUser s id).1.orgs = s.orgs := by
+  unfold deleteUser
+  repeat' split
+  all_goals first
+    | rfl
+    | skip
+  exact (foldl_deleteURMRaw_same _ _).1
+
+theorem orphanFree_same {s s' : State} (h : OrphanFree s) (eo : s'.orgs = s.orgs) (eb : s'.bkts = s.bkts) :
+    OrphanFree s' := by
+  intro id b hg; rw [eo]; rw [eb] at hg; exact h id b hg
+
+theorem step_orphanFree {s : State} (hi : Inv s) (h : OrphanFree s) (op : Op) : OrphanFree (step s op).1 := by
+  cases op with
+  | co n u => exact createOrganization_orphanFree h n u
+  | uo id n => exact updateOrganization_orphanFree h id n
+  | dO id => exact deleteOrganization_orphanFree hi h id
+  | cb o n sys => exact createBucket_orphanFree h o n sys
+  | ub id n => exact updateBucket_orphanFree h id n
+  | db id => exact deleteBucket_orphanFree h id false
+  | cu n id => exact orphanFree_same h (createUser_orgs s n id) (createUser_bkts s n id)
+  | uu id n => exact orphanFree_same h (updateUser_orgs s id n) (updateUser_bkts s id n)
+  | du id => exact orphanFree_same h (deleteUser_orgs s id) (deleteUser_bkts s id)
+  | cm r u a b => exact orphanFree_same h (createURM_orgs s r u _) (createURM_bkts s r u _)
+  | dm r u => exact orphanFree_same h (deleteURM_orgs s r u) (deleteURM_bkts s r u)
+  | fo n => exact h
+  | fb o n => exact h
+  | fu n => exact h
+  | lb o => exact h
+  | idgen g n => cases g <;> exact h
+  | dump => exact h
+
+theorem exec_orphanFree (ops : List Op) {s : State} (hi : Inv s) (h : OrphanFree s) : OrphanFree (exec s ops) := by
+  induction ops generalizing s with
+  | nil => exact h
+  | cons op ops ih => exact ih (step_inv hi op) (step_orphanFree hi h op)
+
+
 end Influx.Tenant
